@@ -5,6 +5,7 @@ from __future__ import annotations
 import contextlib
 import importlib
 
+from lib import show_list
 import txlib
 from txlib import COINS, TX, hx, parse_bytes, parse_fields, show_fields, show_bytes_compact
 import sighashlib as S
@@ -198,9 +199,31 @@ def impl(op: str) -> str:
                     r = call_checked(tx, lambda: sc._signature_for_hash_type_segwit(script, idx, ht))
                 res.append(hex64(r[1]) if r[0] == "ok" else ("!" + r[1] if r[0] == "err" else "MUTATED-TX"))
             return "ok " + ";".join(res)
+        if k == "c04_checksol":
+            coin, f, us, idx = a[1], parse_fields(a[2]), parse_us(a[3]), int(a[4])
+            tx = build(coin, f, us)
+            before = snapshot(tx)
+            trace, vmap, vals, _outcome = S.observe_checksol(tx, idx)
+            if snapshot(tx) != before:
+                return "MUTATED-TX"
+            if show_trace(trace) != a[5] or show_list(vmap) != a[6]:
+                return "err TraceChanged"
+            return "ok " + show_list(vals, hex64)
     except Exception as e:  # noqa: BLE001
         return E(e)
     return "bad-op"
+
+
+def show_trace(trace):
+    return ",".join("%s:%d:%s:%s" % (kd, ht, hx(sc), show_sigs(sigs)) for kd, ht, sc, sigs, _r in trace) or "~"
+
+
+def checksol_op(coin, tx, idx):
+    """the c04_checksol op line for input idx of a real transaction (the trace is harvested here, once)"""
+    trace, vmap, _vals, _outcome = S.observe_checksol(tx, idx)
+    if any(j < 0 for j in vmap):
+        return None
+    return "c04_checksol %s %s %s %d %s %s" % (coin, txlib.dump_tx(tx), show_us(S.us_of(tx)), idx, show_trace(trace), show_list(vmap))
 
 
 # ---------------------------------------------------------------- oracle: the property on the implementation alone
@@ -214,7 +237,7 @@ def oracle(op: str, out: str):
         coin, f, us, idx, script, ht = a[1], parse_fields(a[2]), parse_us(a[3]), int(a[4]), parse_bytes(a[5]), int(a[6])
         forkid = coin in ("bch", "btg")
         need_amount = forkid or k == "c04_sighash_segwit"
-        if not S.in_quantifier(f, idx, us, need_amount, ht) or not S.is_complete(script):
+        if not S.in_quantifier(f, idx, us, need_amount, ht):
             return None
         want = S.spec_sighash(coin, f, us, idx, script, ht) if k == "c04_sighash" else S.spec_segwit(coin, f, us, idx, script, ht)
         if want == "refused":
@@ -237,7 +260,7 @@ def oracle(op: str, out: str):
         coin, kind, f, us, idx, script, sigs, ht = (a[1], a[2], parse_fields(a[3]), parse_us(a[4]), int(a[5]), parse_bytes(a[6]),
                                                      parse_sigs(a[7]), int(a[8]))
         need_amount = coin in ("bch", "btg") or kind == "witness"
-        if not S.in_quantifier(f, idx, us, need_amount, ht) or not S.is_complete(script):
+        if not S.in_quantifier(f, idx, us, need_amount, ht):
             return None
         want = impl("c04_sighash_f_spec " + " ".join(a[1:]))
         if want == "refused":
@@ -246,16 +269,32 @@ def oracle(op: str, out: str):
             return "the message handed to signature verification differs from the consensus definition (hash type 0x%x, %d signature(s) to remove)" % (ht, len(sigs))
     if k == "c04_find_and_delete":
         script, sigs = parse_bytes(a[1]), parse_sigs(a[2])
-        if S.is_complete(script) and out != "ok " + hx(S.script_code_for(script, sigs)):
+        if out != "ok " + hx(S.script_code_for(script, sigs)):
             return "signature removal differs from FindAndDelete"
     if k == "c04_delete_subscript":
         script, sub = parse_bytes(a[1]), parse_bytes(a[2])
-        if sub == b"\xab" and S.is_complete(script):
+        if sub == b"\xab":
             # OP_CODESEPARATOR stripping = what SerializeScriptCode writes after the length
             want = S.serialize_script_code(script)
             body = parse_bytes(out[3:]) if out.startswith("ok") else None
             if body is None or txlib.compact_size(len(body)) + body != want:
                 return "OP_CODESEPARATOR stripping differs from SerializeScriptCode"
+    if k == "c04_checksol" and out.startswith("ok"):
+        coin, f, us, idx = a[1], parse_fields(a[2]), parse_us(a[3]), int(a[4])
+        vals = [] if out[3:] == "~" else out[3:].split(",")
+        entries = [] if a[5] == "~" else a[5].split(",")
+        vmap = [] if a[6] == "~" else [int(x) for x in a[6].split(",")]
+        for v, j in zip(vals, vmap):
+            kd, ht, sc, sigs = entries[j].split(":")
+            ht, sc, sigs = int(ht), parse_bytes(sc), parse_sigs(sigs)
+            need_amount = coin in ("bch", "btg") or kd == "witness"
+            if not S.in_quantifier(f, idx, us, need_amount, ht):
+                continue
+            want = impl("c04_sighash_f_spec %s %s %s %s %d %s %s %d" % (coin, kd, a[2], a[3], idx, hx(sc), show_sigs(sigs), ht))
+            if want == "refused" and v.startswith("!"):
+                continue
+            if "ok " + v != want:
+                return "the message handed to generator.verify during check_solution differs from the consensus definition (%s path, hash type 0x%x)" % (kd, ht)
     if k == "c04_seq" and out.startswith("ok"):
         coin, f, us, script = a[1], parse_fields(a[2]), parse_us(a[3]), parse_bytes(a[4])
         got = out[3:].split(";")
@@ -477,6 +516,26 @@ def gen(ctx, emit):
             for _ in range(ctx.n(6, 200)):
                 calls = [(rng.choice("lw"), rng.randrange(n), rng.choice(HT)) for _c in range(rng.randint(2, 6))]
                 emit("c04_seq %s %s %s %s %s" % (coin, show_fields(f), show_us(us), hx(code_with(rng.randrange(3), False)), ",".join("%s:%d:%d" % c for c in calls)))
+    # ---- Tx.check_solution observed: signed transactions over the standard puzzle kinds, all six standard hash types,
+    # as signed and after a change that makes the signature fail (the message must be the consensus one either way)
+    for coin in COINS:
+        names = [n for n, _s, _e in S.puzzles(coin)]
+        for ht in (1, 2, 3, 0x81, 0x82, 0x83):
+            tx = S.sign_tx(coin, names, ht, n_out=rng.choice([1, 2, 3, len(names) + 1]), version=rng.choice([1, 2]), lock_time=rng.choice([0, 500000]))
+            for variant in range(2):
+                if variant == 1:
+                    which = rng.randrange(3)
+                    if which == 0 and tx.txs_out:
+                        tx.txs_out[0].coin_value += 1
+                    elif which == 1:
+                        tx.lock_time += 1
+                    else:
+                        tx.txs_in[rng.randrange(len(tx.txs_in))].sequence ^= 1
+                for i in range(len(names)):
+                    if variant == 0 or ctx.thorough or rng.random() < 0.4:
+                        o = checksol_op(coin, tx, i)
+                        if o:
+                            emit(o)
     # ---- seeded random transactions
     LCH = [0, 0, 1, 2, 25, 0xFC, 0xFD, 0x100]
     OPS = [b"\x51", b"\xab", b"\xac", b"\x76", b"\x00", b"\x01\xab", b"\x02\xab\xab", b"\x4c\x01\xab", b"\x14" + b"\x33" * 20, S.push_data(SIG), b"\x4f", b"\xae"]
